@@ -66,11 +66,11 @@ let () =
         let f = op_of (getS op) and ax = getI ax in
         let src = elem_at s d in
         let n = zlen s in
-        let model = show_view string_of_z s (fun i -> accumulate_at f src ax i) in
+        let model = show_view string_of_z s (fun i -> accumulate_at f src n ax i) in
         let valid = Z.leb (Z.opp n) ax && Z.ltb ax n in
         let spec = if not valid then "unspecified" else
           show_view string_of_z s (fun i -> accumulate_spec f src n ax i) in
-        { model; spec; dom = posb s && Z.leb Z0 ax && Z.ltb ax n }
+        { model; spec; dom = posb s && valid }
     | _ -> failwith "accum");
   (* stat S:fn S:kd A:arr axis I:ddof   — mean / var / stddev on double data x/7.
      model: the compositions of mean.hpp / var.hpp / stddev.hpp over OCaml doubles with the modelled
@@ -118,7 +118,7 @@ let () =
           show_view fl shp (fun i -> Some (g (elems i))) end in
         { model; spec; dom = posb s && ok }
     | _ -> failwith "stat");
-  (* vnorm S:kd A:arr axis I:ord — view::vector_norm = power(sum(power(fabs(x),ord),axis,keepdims), 1.f/ord) *)
+  (* vnorm S:kd A:arr axis I:ord — view::vector_norm = power(sum(power(fabs(x),ord),axis,keepdims), root_t(1)/ord) *)
   register "vnorm" (fun a -> match a with
     | [kd; arr; ax; ord] ->
         let (s, d) = getA arr in
@@ -126,23 +126,17 @@ let () =
         let fd = fdata d in
         let src i = Float.pow (Float.abs (List.nth fd (int_of_z (horner Z0 i s)))) ord in
         let ok = axes_ok (zlen s) ax in
-        let inv32 = Int32.float_of_bits (Int32.bits_of_float (1.0 /. ord)) in   (* 1.f/ord is a float *)
+        (* the root is taken in the array's floating type: static_cast<double>(1)/ord *)
         let model = (match remove_dims s ax kd with
           | None -> "ub"
-          | Some shp ->
-            (* axis=None, keepdims=False: the sum is a 0-dim view and power_t converts a view operand to
-               common_type_t<view,float> = float: the root is taken in single precision *)
-            let f32 x = Int32.float_of_bits (Int32.bits_of_float x) in
-            let single = (ax = AxNone && not kd) in
-            show_view fl shp (fun i -> match reduce_at (+.) src s ax kd None i with
-                                       | Some v -> Some (if single then f32 (Float.pow (f32 v) inv32) else Float.pow v inv32)
-                                       | None -> None)) in
+          | Some shp -> show_view fl shp (fun i -> match reduce_at (+.) src s ax kd None i with
+                                                   | Some v -> Some (Float.pow v (1.0 /. ord)) | None -> None)) in
         let spec = if not ok then "unspecified" else begin
           let mask = red_mask (nat_of_int (List.length s)) ax in
           show_view fl (reduce_shape_spec s ax kd) (fun i ->
             let l = spec_elems src mask s (if kd then drop_reduced mask i else i) in
             Some (Float.pow (List.fold_left (+.) 0.0 l) (1.0 /. ord))) end in
-        { model; spec; dom = posb s && ok && not (ax = AxNone && not kd) }
+        { model; spec; dom = posb s && ok }
     | _ -> failwith "vnorm");
   (* trace A:arr — view::trace = sum(diagonal(a, 0, 0, 1), axis=-1): the diagonal view puts the diagonal last *)
   register "trace" (fun a -> match a with
@@ -183,10 +177,10 @@ let () =
         let src = elem_at s d in
         if getS fn = "cumsum" then begin
           let axv = getI ax and n = zlen s in
-          let model = show_view string_of_z s (fun i -> accumulate_at f src axv i) in
+          let model = show_view string_of_z s (fun i -> accumulate_at f src n axv i) in
           let valid = Z.leb (Z.opp n) axv && Z.ltb axv n in
           { model; spec = (if valid then show_view string_of_z s (fun i -> accumulate_spec f src n axv i) else "unspecified");
-            dom = posb s && Z.leb Z0 axv && Z.ltb axv n }
+            dom = posb s && valid }
         end else begin
           let kd = kd_of (getS kd) and ax = axis_of ax in
           let init = (match init with N -> None | I v -> Some (Z.modulo v m) | _ -> failwith "init") in
